@@ -14,6 +14,8 @@ BOUND = ("networks with <= 6(7) variables (exhaustive 1-variable, sampled 2-vari
          "children / skip_remaining / minimal-space expansion with skipping, optionally seeds or candidates of a sibling first, reclaim or pickle; on skip nodes the direct fallback "
          "is compared with the default method under the same cache state (minimum_simulation_budget in {1,10,50,default}; 70% of these cases look at the skip nodes only, half "
          "without the twin)")
+BOUND += ("; the nested-component shape: a motif-avoidant module inside an inner trap space of its source SCC next to a second source SCC (13 hand-built networks, "
+          "6-8 variables), expand_scc with / without the motif-avoidance check, expand_block, bfs, every order of the queries")
 RULE = "non-trivial = some node of the case reports a non-fixed-point attractor or at least two attractors"
 CASE_TIMEOUT = 60.0
 
@@ -48,8 +50,20 @@ def skip_overlap_cases(seed, tier):
             yield {"net": name, "bnet": bnet, "config": cfg, "prefix": pre, "order": order, "fallback_limit": 1 if k < 2 else rng.choice([0, 1]), "twin": k < 2 or rng.random() < 0.5, "only_skipped": k >= 2 and rng.random() < 0.7}
 
 
+def nested_scc_cases(seed, tier):
+    """shape added after the round-5 seeded-change review: a source SCC with a nested diagram of its own (a motif-avoidant module inside an inner trap space
+    of the component) next to a second source SCC; component-wise expansion with and without the motif-avoidance check, every order of the queries."""
+    prefixes = [[["scc", True]], [["scc", False]], [["block", True, None, True, False]], [["bfs", None, 0, None], ["scc", True]], [["bfs", None, None, None]]]
+    nets = families.nested_scc_nets()
+    for k, (name, bnet) in enumerate(nets):
+        rng = random.Random(f"{seed}-{name}-c12-nested")
+        for pre in prefixes:
+            for order in (ORDERS if k % 4 == 0 or tier != "quick" else rng.sample(ORDERS, 2)):
+                yield {"net": name, "bnet": bnet, "prefix": pre, "order": order, "fallback_limit": rng.choice([0, 1]), "twin": rng.random() < 0.3}
+
+
 def cases(seed, tier):
-    yield from families.interleave((skip_overlap_cases(seed, tier), 1), (general_cases(seed, tier), 20))
+    yield from families.interleave((nested_scc_cases(seed, tier), 1), (skip_overlap_cases(seed, tier), 1), (general_cases(seed, tier), 20))
 
 
 def general_cases(seed, tier):
